@@ -5,8 +5,15 @@
 (* clear (no de-duplication, steps only) -- so every Ref-stated property   *)
 (* proved for that table (MC_Lookup) holds for loaded legacy data; and the *)
 (* lookups on it find every key with its value.                            *)
+(*                                                                         *)
+(* Wire: for every three-section version, the stream SlimWireOld defines   *)
+(* for the old trie, read back through the loader's own access functions   *)
+(* (bitmap membership, offset + popcount, 4-byte or packed 16-bit child    *)
+(* elements, 16-bit steps, fixed-width leaves), IS that old trie -- so the *)
+(* chain keys -> old trie -> bytes -> loader's view -> conversion ->        *)
+(* current table is closed inside the specification.                        *)
 (***************************************************************************)
-EXTENDS SlimLegacy
+EXTENDS SlimWireOld
 
 CONSTANTS Alphabet, MaxLen, MaxKeys
 
@@ -28,4 +35,19 @@ Inv ==
        /\ ModelGet(keys, nodes, NoPref, Vals, TRUE, keys[i]) = <<1, <<i>>>>
        /\ ModelRangeGet(keys, nodes, NoPref, Vals, TRUE, keys[i]) = <<1, <<i>>>>
        /\ ModelSearch(keys, nodes, NoPref, Vals, TRUE, keys[i]) = RefSearch(keys, Vals, TRUE, R, keys[i])
+
+Patches == {0, 1, 3, 4, 6, 7, 8, 9}
+Wire ==
+  LET old == TLCEval(OldTrie(keys)) IN
+  \A patch \in Patches :
+    LET bs == TLCEval(V3Stream(old, Vals, patch))
+        rd == TLCEval(ReadV3(bs, 1)) IN
+    /\ Len(rd) = Len(old)
+    /\ \A i \in 1..Len(old) :
+         /\ rd[i].inner = old[i].inner /\ rd[i].leaf = old[i].leaf
+         /\ old[i].inner => (rd[i].bm = old[i].bm /\ rd[i].step = old[i].step)
+         /\ old[i].leaf => rd[i].val = Vals[old[i].key]
+    \* every proper prefix of the stream is refused (C07 for the old layouts): some section is short
+    /\ \A cut \in 0..(Len(bs) - 1) :
+         LET secs == Sections(SubSeq(bs, 1, cut)) IN Len(secs) < 3 \/ \E x \in 1..Len(secs) : secs[x].bad
 =============================================================================
